@@ -1172,6 +1172,7 @@ class Body:
                 out.append({'point': p, 'kind': 'forward', 'call': cs})
 
         for (p, kind, data) in self.defs.get(0, []):
+            n0 = len(out)
             if kind == 'assign':
                 if data['place']['p']:
                     out.append({'point': p, 'kind': 'value', 'rv': None})
@@ -1179,6 +1180,10 @@ class Body:
                     from_rv(p, data['rv'])
             elif kind == 'call':
                 from_call(p, data)
+            # `point` is where the returned value was built (the decision); `ret_point` is where it is stored into the
+            # return slot (what must have happened "before returning" is asked of this one)
+            for e in out[n0:]:
+                e['ret_point'] = p
         out = [e for e in out if self.is_live_point(e['point'])]
         self._exits = out
         return out
